@@ -529,13 +529,14 @@ class Gen:
             if op in ("ins", "rep"):
                 if b["code"]:
                     p = self.patch(eid, True, self.fn_of.get(b["id"]))
-                elif rng.random() < 0.7:
+                elif rng.random() < self.knobs.get("data_bytes_p", 0.7):
                     p = {"bytes": rng.randbytes(rng.randrange(1, 6)).hex()}
                 else:
                     p = {"lines": [{"k": "bytes",
                                     "hex": rng.randbytes(
                                         rng.randrange(1, 5)).hex()}]}
-                    if case["isa"] != "ia32" and rng.random() < 0.5:
+                    if case["isa"] != "ia32" and \
+                            rng.random() < self.knobs.get("data_temp_p", 0.5):
                         p["lines"].insert(
                             rng.choice([0, 1]),
                             {"l": f".Lpt{eid}_d", "temp": True})
